@@ -227,9 +227,20 @@ func genC08(r *Rng, e *Emitter, n int) {
 				}))
 		default: // overlap tests on a small grid (touching edges are frequent)
 			l := []geom.Layout{geom.XY, geom.XYZ, geom.XYM, geom.XYZM, 5}[r.Intn(5)]
-			s := l.Stride()
+			// the boxes may have more dimensions than the layout asked about (only that layout's
+			// dimensions count), and their further dimensions may hold no ordinate yet
+			lb := l
+			if r.chance(1, 2) {
+				wider := map[geom.Layout][]geom.Layout{geom.XY: {geom.XYZ, geom.XYM, geom.XYZM}, geom.XYZ: {geom.XYZM}, geom.XYM: {geom.XYZM}}[l]
+				if len(wider) > 0 {
+					lb = wider[r.Intn(len(wider))]
+				}
+			}
+			e.tally(fmt.Sprintf("overlap-query=%d box=%d", int(l), int(lb)))
+			q := l.Stride()
+			s := lb.Stride()
 			box := func() (*geom.Bounds, []float64, []float64) {
-				b := geom.NewBounds(l)
+				b := geom.NewBounds(lb)
 				if r.chance(1, 10) {
 					mn, mx := make([]float64, s), make([]float64, s)
 					for i := range mn {
@@ -250,6 +261,9 @@ func genC08(r *Rng, e *Emitter, n int) {
 						}
 					}
 					args[i], args[i+s] = math.Min(a, c), math.Max(a, c)
+					if i >= q && r.chance(1, 2) {
+						args[i], args[i+s] = math.Inf(1), math.Inf(-1) // nothing seen in this dimension yet
+					}
 				}
 				b.Set(args...)
 				return b, args[:s], args[s:]
@@ -261,7 +275,7 @@ func genC08(r *Rng, e *Emitter, n int) {
 				e.emit("C08.overlaps", fmt.Sprintf("(%d %s %s %s %s)", int(l), sxCoord(mn1), sxCoord(mx1), sxCoord(mn2), sxCoord(mx2)),
 					guard(func() string { return fmt.Sprintf("(ok %v)", b1.Overlaps(l, b2)) }))
 			} else {
-				p := make(geom.Coord, s)
+				p := make(geom.Coord, q+r.Intn(s-q+1))
 				for i := range p {
 					p[i] = float64(r.Intn(7))
 				}
